@@ -430,6 +430,7 @@ func init() {
 				jobs = append(jobs, vs.MkJob("lines "+w.String(), c02Params{W: w, LinesOnly: true, NShards: 1}))
 			}
 			// message-level faults (payload cut to a well-formed shorter one), and digest cuts paired with data flips
+			var fieldCfgs []c02Params
 			for _, c := range []c02Params{
 				// binary and uncompressed: a flipped payload byte is a different, still decodable, content byte
 				{W: wParams{Dir: "down", Tree: "one:R:21000", Binary: true, Tunnel: true, Compress: 2, Timeout: 3}},
@@ -438,6 +439,13 @@ func init() {
 				{W: wParams{Dir: "up", Tree: "small3", Timeout: 3}},
 				{W: wParams{Dir: "down", Tree: "one:E:3000", Protocol: 2, Timeout: 3}},
 			} {
+				fieldCfgs = append(fieldCfgs, c)
+			}
+			if tier == "thorough" {
+				// and every configuration of the byte-level enumeration (resumed, directory, relay, Windows framing ...)
+				fieldCfgs = append(fieldCfgs, cfgs...)
+			}
+			for _, c := range fieldCfgs {
 				c.Fields = true
 				n := 4
 				for s := 0; s < n; s++ {
